@@ -75,6 +75,9 @@ func (n addNetworkDelegationTx) Validate(ctx *action.Context, tx action.SignedTx
 	if err := delegate.DelegationAddress.Err(); err != nil {
 		return false, err
 	}
+	if !delegate.Amount.IsValid(ctx.Currencies) || delegate.Amount.Currency != "OLT" {
+		return false, errors.Wrap(action.ErrInvalidAmount, delegate.Amount.String())
+	}
 
 	return true, nil
 }
